@@ -247,7 +247,7 @@ def fixed_case(rng, version):
     return {'hier': h, 'elems': [el], 'docref': 'e', 'version': version, 'instances': insts}
 
 
-def alt_case(rng):
+def alt_case(rng, preset=None):
     """XSD 1.1 type alternatives with attribute-equality tests: the first whose test holds governs."""
     h = {'simple': False, 'types': [{'base': None, 'meth': 'extension', 'abstract': False, 'block': None}],
          'blockDefault': None}
@@ -258,10 +258,14 @@ def alt_case(rng):
     DTEST, NTEST = "xs:date(@d) gt xs:date('2020-06-01')", "(10 idiv xs:integer(@n)) = 5"
     pool = ["@k='a'", "@k='b'", "@k='c'", "@k='a'", "@k='b'", DTEST, NTEST]
     alts = [(rng.choice(pool), rng.choice(types)) for _ in range(rng.randint(1, 3))]
+    if preset is not None:
+        # an earlier test that can hold through the inherited attribute, a later one through an own attribute (and the reverse)
+        alts = [[("@k='a'", 'xs:integer'), (DTEST, 'xs:date')], [("@k='b'", 'xs:boolean'), (NTEST, 'xs:integer')],
+                [(DTEST, 'xs:date'), ("@k='a'", 'xs:integer')], [(NTEST, 'xs:integer'), ("@k='c'", 'xs:boolean'), ("@k='a'", 'xs:date')]][preset]
     el = {'name': 'e', 'ty': 0, 'tyname': 'TA', 'alts': alts}
     insts = []
     good = {'xs:integer': '12', 'xs:boolean': 'true', 'xs:date': '2020-01-01'}
-    inherit = rng.random() < 0.5
+    inherit = rng.random() < 0.5 or preset is not None
     combos = [(None, kv, None, None) for kv in ('a', 'b', 'c', 'z')]
     if inherit:
         # XSD 1.1 inheritable attribute on the parent: visible to the tests unless the element has its own attribute k
@@ -416,8 +420,8 @@ def run(ctx):
         cases.append(nil_case(rng, '1.1' if i % 2 else '1.0'))
     for i in range(24 if q else 200):
         cases.append(fixed_case(rng, '1.1' if i % 2 else '1.0'))
-    for i in range(20 if q else 200):
-        cases.append(alt_case(rng))
+    for i in range(24 if q else 200):
+        cases.append(alt_case(rng, preset=i if i < 4 else None))
     ctx.rule = ('seeded hierarchies of 3-8 types (extension/restriction, abstract, block, blockDefault; simple restriction '
                 'chains) x element block/abstract x every type name as xsi:type; substitution groups (1-2 levels) x every '
                 'member; xsi:nil lexical x nillable x fixed x content; fixed values x lexical variants; XSD 1.1 alternatives '
